@@ -439,7 +439,9 @@ def filter_citations(citations: List[CitationBase]) -> List[CitationBase]:
 
         filtered_citations.append(citation)
 
-    return filtered_citations
+    # reference citations may have been extracted out of order and a full span
+    # can start before the span of a preceding citation: order by span
+    return sorted(filtered_citations, key=lambda citation: citation.span())
 
 
 joke_cite: List[CitationBase] = [
